@@ -642,6 +642,9 @@ def to_expression(obj):
 class Expression:
     """A mathematical expression"""
 
+    # let `ndarray <op> Expression` fall back to the reflected operators
+    __array_ufunc__ = None
+
     def __init__(self, function, arguments):
         self.function = function
         self.arguments = list(arguments)
